@@ -11,5 +11,14 @@
 #undef malloc
 #undef free
 #undef realloc
+/* typed model of memset(node, 0, sizeof(cJSON)) (annotate rule R5) */
+void *vf_memset_cjson(void *p, int c, size_t n)
+{
+    cJSON *node = (cJSON*)p;
+    __CPROVER_assert(c == 0 && n == sizeof(cJSON), "memset model: zeroing one cJSON node");
+    __CPROVER_assert(__CPROVER_w_ok(p, sizeof(cJSON)), "memset: node writable");
+    node->next = NULL; node->prev = NULL; node->child = NULL; node->type = 0; node->valuestring = NULL; node->valueint = 0; node->valuedouble = 0.0; node->string = NULL;
+    return p;
+}
 #include "contracts_cjson.h"
 #endif
